@@ -481,6 +481,11 @@ impl<T: RcObject> Rc<T> {
     /// read-modify-write operations.
     #[inline(always)]
     pub fn new_many<const N: usize>(obj: T) -> [Self; N] {
+        if N == 0 {
+            // No owner is handed out: release the object through an ordinary owner.
+            drop(Self::new(obj));
+            return [(); N].map(|_| Self::null());
+        }
         let ptr = RcInner::alloc(obj, N as _);
         vy!(1103, ptr, N);
         [(); N].map(|_| Self {
@@ -497,6 +502,14 @@ impl<T: RcObject> Rc<T> {
     /// read-modify-write operations.
     #[inline(always)]
     pub fn new_many_iter(obj: T, count: usize) -> NewRcIter<T> {
+        if count == 0 {
+            // No owner is handed out: release the object through an ordinary owner.
+            drop(Self::new(obj));
+            return NewRcIter {
+                remain: 0,
+                ptr: Raw::null(),
+            };
+        }
         let ptr = RcInner::alloc(obj, count as _);
         vy!(1103, ptr, count);
         NewRcIter {
